@@ -26,7 +26,7 @@ func init() {
 		Run:   runC19,
 		Assumptions: []string{
 			"'never retain the caller's argument slice' is checked as: a later write by the caller through the argument slice (anywhere in arg[:cap(arg)]) does not change All()",
-			"writes by the caller through the slice returned by All() are expected to be visible (All exposes the node's own storage); they are applied to the model too",
+			"a write by the caller through the slice returned by All() may or may not be visible afterwards (the statement does not say whether All is a view or a copy): the model follows what the implementation shows, and both outcomes are counted",
 		},
 		Required: map[string]int{"op_kinds": 8},
 	})
@@ -51,7 +51,16 @@ func c19History(c *fw.Ctx, id string, i int) {
 	r := c.Rand(id)
 	arena := make([]string, 64)
 	next := 0
-	fresh := func() string { next++; return fmt.Sprintf("/*%d.%d*/", i, next) }
+	fresh := func() string {
+		next++
+		switch (next*7 + i) % 16 {
+		case 0:
+			return "\n" // an explicit line break is a decoration like any other
+		case 1, 2:
+			return fmt.Sprintf("//%d.%d", i, next)
+		}
+		return fmt.Sprintf("/*%d.%d*/", i, next)
+	}
 	for k := range arena {
 		arena[k] = fresh()
 	}
@@ -142,9 +151,17 @@ func c19History(c *fw.Ctx, id string, i int) {
 			got := d.All()
 			if len(got) > 0 {
 				j := r.Intn(len(got))
-				v := fresh()
+				v := fmt.Sprintf("/*w%d.%d*/", i, op)
 				got[j] = v
-				model[j] = v
+				// All() of the current code is a view of the node's own storage, so the write is
+				// visible; the statement does not demand that (a copy would satisfy it as well), so
+				// the model follows whichever of the two the implementation does
+				if now := d.All(); len(now) == len(model) && now[j] == v {
+					model[j] = v
+					c.Count("all_is_a_view", 1)
+				} else {
+					c.Count("all_is_a_copy", 1)
+				}
 			}
 		case 9:
 			// the caller passes a view of the list itself (a sub-slice of All()) as the argument:
@@ -239,7 +256,13 @@ func c19Render(c *fw.Ctx, id string, where int, d dst.Decorations, fail func(rul
 	}
 	toks, _ := obs.Scan(buf.Bytes())
 	got := obs.Comments(toks)
-	if !sameList(got, d.All()) {
+	var want []string
+	for _, x := range d.All() {
+		if x != "\n" {
+			want = append(want, x)
+		}
+	}
+	if !sameList(got, want) {
 		fail("render-mismatch", fmt.Sprintf("point %s: printed comments %v, All() %v\n%s", point, got, d.All(), buf.String()))
 	}
 	c.Count("rendered", 1)
